@@ -159,8 +159,9 @@ def raising(tree, **params):
         # only non-terminals are block nodes; a terminal can carry the flags
         # of a unary block node that has been collapsed into it
         if subtree != tree and trees.has_children(subtree):
-            if subtree.data['split']:
-                if not subtree.data['head_block']:
+            # nodes added after the splitting (e.g. by binarize) carry no flags
+            if subtree.data.get('split'):
+                if not subtree.data.get('head_block'):
                     removal.append(subtree)
     for subtree in removal:
         parent = subtree.parent
